@@ -58,7 +58,8 @@ func VerifLemma_C15B_ParallelizeFailureAfterCancel() {
 	if skipped {
 		verifAssert(err != nil, "a job that never ran is reported as an error")
 	}
-	if !failed && !skipped {
-		verifAssert(err == nil, "all jobs ran and none failed: no error")
+	if !failed && !skipped && canceller == n {
+		// (with a cancelled caller context and every job done, returning nil or ctx.Err() are both defensible)
+		verifAssert(err == nil, "all jobs ran, none failed, nobody cancelled: no error")
 	}
 }
